@@ -20,6 +20,7 @@ type modSet struct {
 	all    bool
 	emits  bool // may append arbitrary events
 	opaque bool // may append opaque events (unknown code reached through function values / external interfaces)
+	fncall bool // repository code reached from here calls through function values: the per-value call counters move
 	allocs bool
 }
 
@@ -51,6 +52,7 @@ func (m *modSet) addAll(o *modSet) {
 	m.all = m.all || o.all
 	m.emits = m.emits || o.emits
 	m.opaque = m.opaque || o.opaque
+	m.fncall = m.fncall || o.fncall
 	m.allocs = m.allocs || o.allocs
 }
 
@@ -151,8 +153,11 @@ func (w *World) directMods(key string) *directSummary {
 					ms.emits = ms.emits || sub.emits
 				}
 				ms.allocs = ms.allocs || sub.allocs
+				ms.fncall = sub.fncall || sub.all
 			}
 		}
+		// (assumed contracts stand for unknown code: calls made inside unknown code are not counted by the per-value
+		// call counters, which count the calls made by code under contract)
 		if sp.Flags["allocs"] != "" {
 			ms.allocs = true
 		}
@@ -454,6 +459,7 @@ func (w *World) callMods(pkg *packages.Package, c *Ctx, call *ast.CallExpr, ms *
 	if fn == nil {
 		// call through a function value: any literal of the package with an identical signature, plus opaque events
 		ms.opaque = true
+		ms.fncall = true
 		ms.allocs = true
 		ft, _ := info.TypeOf(call.Fun).(*types.Signature)
 		for _, fi := range w.Funcs {
